@@ -880,3 +880,374 @@ Proof.
   - exfalso. eapply lex_no_panic; eassumption.
   - exfalso. eapply fuel_sufficient; eassumption.
 Qed.
+
+(* ------------------------------------------------------------------ *)
+(* operators: maximal munch                                            *)
+
+(* n is an admissible operator length at the head of [input]: n symbol bytes;
+   none of the three pipes / slash slash / slash star sequences starts at an
+   offset 1 <= i < n; the last byte may end an operator unless n = 1 *)
+Definition op_len_ok (input : list N) (n : nat) : Prop :=
+  (1 <= n <= length input)%nat /\
+  (forall i, (i < n)%nat -> is_op_byte (nth i input 0) = true) /\
+  (forall i, (1 <= i < n)%nat -> op_forbidden_here (skipn i input) = false) /\
+  (n = 1%nat \/ mem_byte (nth (n - 1) input 0) op_sure_bytes = true).
+
+Lemma skipn_rev_app (acc r : list N) : skipn (length acc) (rev acc ++ r) = r.
+Proof.
+  rewrite skipn_app, rev_length, Nat.sub_diag. rewrite skipn_all2 by (rewrite rev_length; lia). reflexivity.
+Qed.
+
+Lemma nth_rev_app (acc : list N) b r : nth (length acc) (rev acc ++ b :: r) 0 = b.
+Proof. rewrite app_nth2 by (rewrite rev_length; lia). rewrite rev_length, Nat.sub_diag. reflexivity. Qed.
+
+Lemma firstn_rev_app (acc r : list N) : firstn (length acc) (rev acc ++ r) = rev acc.
+Proof.
+  rewrite firstn_app, rev_length, Nat.sub_diag. cbn [firstn]. rewrite app_nil_r.
+  apply firstn_all2. rewrite rev_length. lia.
+Qed.
+
+Lemma op_loop_munch : forall r ps acc sp sr sacc input,
+  input = rev acc ++ r ->
+  (1 <= length sacc <= length acc)%nat ->
+  rev sacc = firstn (length sacc) input ->
+  sr = skipn (length sacc) input ->
+  (forall i, (i < length acc)%nat -> is_op_byte (nth i input 0) = true) ->
+  (forall i, (1 <= i < length acc)%nat -> op_forbidden_here (skipn i input) = false) ->
+  (length sacc = 1%nat \/ mem_byte (nth (length sacc - 1) input 0) op_sure_bytes = true) ->
+  (forall i, (length sacc <= i < length acc)%nat -> mem_byte (nth i input 0) op_sure_bytes = false) ->
+  let '(c', racc) := op_loop r ps acc sp sr sacc in
+  rev racc = firstn (length racc) input /\ op_len_ok input (length racc) /\
+  (forall n, op_len_ok input n -> (n <= length racc)%nat) /\ rest c' = skipn (length racc) input.
+Proof.
+  induction r as [|b r IH]; intros ps acc sp sr sacc input HI HL HS HR HO HF HE HM.
+  - (* end of input *)
+    cbn [op_loop]. assert (LI : length input = length acc) by (rewrite HI, app_nil_r, rev_length; reflexivity).
+    destruct (op_forbidden_here []); cbn [rest]; (split; [exact HS|]; split; [|split; [|exact HR]]).
+    all: try (split; [lia|]; split; [intros i Hi; apply HO; lia|]; split; [intros i Hi; apply HF; lia|exact HE]).
+    all: intros n [[N1 N2] [NO [NF NE]]]; destruct (Nat.le_gt_cases n (length sacc)) as [|G]; [assumption|exfalso].
+    all: destruct NE as [->|NE]; [lia|]; rewrite HM in NE by lia; discriminate.
+  - cbn [op_loop].
+    assert (SK : skipn (length acc) input = b :: r) by (rewrite HI; apply skipn_rev_app).
+    assert (NB : nth (length acc) input 0 = b) by (rewrite HI; apply nth_rev_app).
+    assert (LI : length input = S (length acc + length r)) by (rewrite HI, app_length, rev_length; cbn; lia).
+    (* the three ways to stop here share one argument *)
+    assert (STOP : (op_forbidden_here (b :: r) = true \/ is_op_byte b = false) ->
+              rev sacc = firstn (length sacc) input /\ op_len_ok input (length sacc) /\
+              (forall n, op_len_ok input n -> (n <= length sacc)%nat) /\
+              rest {| pos := sp; rest := sr |} = skipn (length sacc) input).
+    { intros WHY. split; [exact HS|]. split; [|split; [|exact HR]].
+      - split; [lia|]. split; [intros i Hi; apply HO; lia|]. split; [intros i Hi; apply HF; lia|exact HE].
+      - intros n [[N1 N2] [NO [NF NE]]]. destruct (Nat.le_gt_cases n (length sacc)) as [|G]; [assumption|exfalso].
+        destruct (Nat.le_gt_cases n (length acc)) as [LA|GA].
+        + destruct NE as [->|NE]; [lia|]. rewrite HM in NE by lia. discriminate.
+        + destruct WHY as [W|W].
+          * rewrite <- SK in W. rewrite NF in W by lia. discriminate.
+          * rewrite <- NB in W. rewrite NO in W by lia. discriminate. }
+    destruct (op_forbidden_here (b :: r)) eqn:FB; [apply STOP; left; reflexivity|].
+    assert (HI' : input = rev (b :: acc) ++ r) by (rewrite HI; cbn [rev]; rewrite <- app_assoc; reflexivity).
+    assert (HF' : forall i, (1 <= i < length (b :: acc))%nat -> op_forbidden_here (skipn i input) = false).
+    { intros i Hi. cbn [length] in Hi. destruct (Nat.eq_dec i (length acc)) as [->|Ne]; [rewrite SK; exact FB|apply HF; lia]. }
+    destruct (mem_byte b op_sure_bytes) eqn:S1.
+    + (* a byte that may end the operator *)
+      apply (IH (ps + 1) (b :: acc) (ps + 1) r (b :: acc) input HI').
+      * cbn [length]. lia.
+      * rewrite HI'. symmetry. apply firstn_rev_app.
+      * rewrite HI'. symmetry. apply skipn_rev_app.
+      * intros i Hi. cbn [length] in Hi. destruct (Nat.eq_dec i (length acc)) as [->|Ne].
+        -- rewrite NB. unfold is_op_byte. rewrite S1. reflexivity.
+        -- apply HO. lia.
+      * exact HF'.
+      * right. cbn [length]. replace (S (length acc) - 1)%nat with (length acc) by lia. rewrite NB. exact S1.
+      * intros i Hi. lia.
+    + destruct (mem_byte b op_unsure_bytes) eqn:S2.
+      * (* a byte that may continue the operator but not end it *)
+        apply (IH (ps + 1) (b :: acc) sp sr sacc input HI').
+        -- cbn [length]. lia.
+        -- exact HS.
+        -- exact HR.
+        -- intros i Hi. cbn [length] in Hi. destruct (Nat.eq_dec i (length acc)) as [->|Ne].
+           ++ rewrite NB. unfold is_op_byte. rewrite S1, S2. reflexivity.
+           ++ apply HO. lia.
+        -- exact HF'.
+        -- exact HE.
+        -- intros i Hi. cbn [length] in Hi. destruct (Nat.eq_dec i (length acc)) as [->|Ne].
+           ++ rewrite NB. exact S1.
+           ++ apply HM. lia.
+      * apply STOP. right. unfold is_op_byte. rewrite S1, S2. reflexivity.
+Qed.
+
+(* The operator token starting with the symbol byte b0 is the LONGEST admissible
+   prefix of the input, and the cursor continues right after it. *)
+Theorem operator_maximal_munch : forall b0 r ps, is_op_byte b0 = true ->
+  let '(c', racc) := op_loop r ps [b0] ps r [b0] in
+  let input := b0 :: r in
+  rev racc = firstn (length racc) input /\ op_len_ok input (length racc) /\
+  (forall n, op_len_ok input n -> (n <= length racc)%nat) /\ rest c' = skipn (length racc) input.
+Proof.
+  intros b0 r ps Hb.
+  apply (op_loop_munch r ps [b0] ps r [b0] (b0 :: r)); cbn [length rev app firstn skipn]; try reflexivity; try lia.
+  all: try (intros i Hi; replace i with 0%nat by lia; exact Hb).
+  all: try (left; reflexivity).
+Qed.
+
+(* the token lex_operator produces carries that text *)
+Theorem lex_operator_text len start b0 c t c' : is_op_byte b0 = true ->
+  lex_operator len start b0 c = Ok (t, c') ->
+  exists n, op_len_ok (b0 :: rest c) n /\ (forall m, op_len_ok (b0 :: rest c) m -> (m <= n)%nat) /\
+            rest c' = skipn n (b0 :: rest c) /\
+            tok_kind t = match assoc_bytes (firstn n (b0 :: rest c)) operator_table with
+                         | Some k => TSimple k
+                         | None => TOtherOp (firstn n (b0 :: rest c))
+                         end.
+Proof.
+  intros Hb H. unfold lex_operator in H.
+  pose proof (operator_maximal_munch b0 (rest c) (pos c) Hb) as M.
+  destruct (op_loop (rest c) (pos c) [b0] (pos c) (rest c) [b0]) as [c1 racc].
+  destruct M as [M1 [M2 [M3 M4]]]. exists (length racc). split; [exact M2|]. split; [exact M3|].
+  rewrite <- M1. destruct (assoc_bytes (rev racc) operator_table) as [k|].
+  - unfold commit in H. destruct (make_span len start (pos c1)); inversion H; subst. split; [exact M4|reflexivity].
+  - unfold ascii_str in H. destruct (forallb (fun b => b <? 128) (rev racc)); [|discriminate].
+    cbn [obind] in H. unfold commit in H. destruct (make_span len start (pos c1)); inversion H; subst.
+    split; [exact M4|reflexivity].
+Qed.
+
+(* ------------------------------------------------------------------ *)
+(* literal values, stated over the lossy decoding of the input         *)
+
+Lemma match_trail_ge trail : forall acc rest k v,
+  match_trail trail acc rest = (k, Some v) -> acc <= v /\ (trail <> [] -> acc * 64 <= v).
+Proof.
+  induction trail as [|[lo hi] tr IH]; intros acc rest k v H; cbn [match_trail] in H.
+  - inversion H; subst. split; [lia|congruence].
+  - destruct rest as [|b r]; [discriminate|]. destruct (in_range lo hi b); [|discriminate].
+    destruct (match_trail tr (acc * 64 + (b - 128)) r) as [k' oc] eqn:M. inversion H; subst.
+    destruct (IH _ _ _ _ M) as [G _]. split; [lia|intros _; lia].
+Qed.
+
+Lemma match_trail_cons lo hi tr acc b r :
+  match_trail ((lo, hi) :: tr) acc (b :: r) =
+  if in_range lo hi b then let '(k, oc) := match_trail tr (acc * 64 + (b - 0x80)) r in (S k, oc) else (0%nat, None).
+Proof. reflexivity. Qed.
+Lemma match_trail_nil lo hi tr acc : match_trail ((lo, hi) :: tr) acc [] = (0%nat, None).
+Proof. reflexivity. Qed.
+
+Lemma decode_arith_nonascii b0 rest : 128 <= b0 -> 128 <= or_repl (snd (decode_arith b0 rest)).
+Proof.
+  intros Hb. unfold decode_arith, row_of.
+  replace (b0 <=? 127) with false by (symmetry; apply N.leb_gt; lia).
+  destruct (in_range lead2_lo lead2_hi b0) eqn:R2.
+  { apply in_range_iff in R2. unfold lead2_lo in R2.
+    destruct (match_trail [cont_range] (b0 - 192) rest) as [k [v|]] eqn:M; cbn [snd or_repl]; [|unfold replacement; lia].
+    apply match_trail_ge in M as [_ G]. specialize (G ltac:(discriminate)). destruct R2 as [R2 _]. lia. }
+  destruct (in_range 0xE0 0xEF b0) eqn:R3.
+  { apply in_range_iff in R3.
+    destruct rest as [|b1 r]; [rewrite match_trail_nil; cbn; unfold replacement; lia|].
+    rewrite match_trail_cons.
+    destruct (in_range (lo3 b0) (hi3 b0) b1) eqn:R1; [|cbn; unfold replacement; lia].
+    destruct (match_trail [cont_range] ((b0 - 224) * 64 + (b1 - 128)) r) as [k [v|]] eqn:M;
+      cbn [snd or_repl]; [|cbv [replacement]; lia].
+    apply match_trail_ge in M as [_ G]. specialize (G ltac:(discriminate)).
+    apply in_range_iff in R1. unfold lo3 in R1. destruct (N.eqb_spec b0 224); lia. }
+  destruct (in_range 0xF0 0xF7 b0) eqn:R4; [|cbn; unfold replacement; lia].
+  destruct (in_range 0xF0 0xF4 b0) eqn:R4'; [|cbn; unfold replacement; lia].
+  apply in_range_iff in R4'.
+  destruct rest as [|b1 r]; [rewrite match_trail_nil; cbn; unfold replacement; lia|].
+  rewrite match_trail_cons.
+  destruct (in_range (lo4 b0) (hi4 b0) b1) eqn:R1; [|cbn; unfold replacement; lia].
+  destruct (match_trail [cont_range; cont_range] ((b0 - 240) * 64 + (b1 - 128)) r) as [k [v|]] eqn:M;
+    cbn [snd or_repl]; [|cbv [replacement]; lia].
+  apply match_trail_ge in M as [_ G]. specialize (G ltac:(discriminate)).
+  apply in_range_iff in R1. unfold lo4 in R1. destruct (N.eqb_spec b0 240); lia.
+Qed.
+
+(* one step of eat_any_char, seen on the lossy decoding *)
+Lemma lossy_head b0 r : b0 < 256 -> bytes_ok r ->
+  exists k oc, @decode_cont_char lex_error b0 r = Ok (k, oc) /\ (k <= length r)%nat /\
+    lossy (b0 :: r) = or_replacement oc :: lossy (skipn k r) /\
+    (b0 < 128 -> oc = Some b0 /\ k = 0%nat) /\ (128 <= b0 -> 128 <= or_replacement oc).
+Proof.
+  intros Hb Hr. pose proof (decode_eq (E := lex_error) b0 r Hb Hr) as D.
+  pose proof (decode_arith_le b0 r) as L. pose proof (lossy_lead b0 r Hb) as LL.
+  pose proof (decode_arith_nonascii b0 r) as NA.
+  destruct (decode_arith b0 r) as [k oc] eqn:DA. cbn [fst snd] in *.
+  exists k, oc. split; [exact D|]. split; [exact L|]. split; [exact LL|]. split; [|exact NA].
+  intros Ha. unfold decode_arith, row_of in DA.
+  replace (b0 <=? 127) with true in DA by (symmetry; apply N.leb_le; lia).
+  cbn [match_trail] in DA. inversion DA. rewrite N.sub_0_r. split; reflexivity.
+Qed.
+
+Lemma lossy_ascii b r : b < 128 -> bytes_ok r -> lossy (b :: r) = b :: lossy r.
+Proof.
+  intros Hb Hr. destruct (lossy_head b r ltac:(lia) Hr) as [k [oc [_ [_ [L [A _]]]]]].
+  destruct (A Hb) as [-> ->]. exact L.
+Qed.
+
+Lemma eat_any_char_inv c c1 oc : bytes_ok (rest c) -> eat_any_char c = Ok (Some (c1, oc)) ->
+  exists b0 r, rest c = b0 :: r /\ lossy (rest c) = or_replacement oc :: lossy (rest c1) /\
+               bytes_ok (rest c1) /\ (b0 < 128 -> or_replacement oc = b0) /\ (128 <= b0 -> 128 <= or_replacement oc).
+Proof.
+  intros B H. unfold eat_any_char, eat_any_byte in H.
+  destruct (rest c) as [|b0 r] eqn:R; [discriminate|]. exists b0, r. split; [reflexivity|].
+  inversion B as [|? ? Hb Hr]; subst.
+  destruct (lossy_head b0 r Hb Hr) as [k [oc' [D [L [LL [A NA]]]]]].
+  unfold eat_cont_any_char in H. cbn [rest pos] in H. rewrite D in H. cbn [obind] in H.
+  inversion H; subst. cbn [rest]. split; [exact LL|]. split; [apply bytes_ok_skipn, Hr|].
+  split; [|exact NA]. intros Ha. destruct (A Ha) as [-> _]. reflexivity.
+Qed.
+
+Lemma eat_byte_inv b c c1 : eat_byte b c = Some c1 -> rest c = b :: rest c1.
+Proof. intros H. apply eat_byte_ext in H. destruct H as [H _]. exact H. Qed.
+
+Lemma eat_byte_none b c : eat_byte b c = None -> rest c = [] \/ exists x r, rest c = x :: r /\ x <> b.
+Proof.
+  unfold eat_byte, eat_byte_if. destruct (rest c) as [|x r]; [left; reflexivity|].
+  destruct (N.eqb_spec b x); [discriminate|]. intros _. right. exists x, r. split; [reflexivity|congruence].
+Qed.
+
+(* the head code point of the lossy decoding is an ASCII character exactly when
+   the head byte is that character *)
+Lemma lossy_head_neq x r d : bytes_ok (x :: r) -> d < 128 -> x <> d ->
+  exists cp t, lossy (x :: r) = cp :: t /\ cp <> d.
+Proof.
+  intros B Hd Hx. inversion B as [|? ? Hb Hr]; subst.
+  destruct (lossy_head x r Hb Hr) as [k [oc [_ [_ [L [A NA]]]]]].
+  exists (or_replacement oc), (lossy (skipn k r)). split; [exact L|].
+  destruct (N.lt_ge_cases x 128) as [Lt|Ge].
+  - destruct (A Lt) as [-> _]. cbn. exact Hx.
+  - specialize (NA Ge). lia.
+Qed.
+
+(* ---- verbatim strings: the grammar on code points ---- *)
+Fixpoint verbatim_spec (delim : N) (cps : list N) : option (list N * list N) :=
+  match cps with
+  | [] => None
+  | c :: r =>
+      if c =? delim then
+        match r with
+        | c2 :: r2 =>
+            if c2 =? delim then
+              match verbatim_spec delim r2 with Some (s, t) => Some (delim :: s, t) | None => None end
+            else Some ([], r)
+        | [] => Some ([], r)
+        end
+      else match verbatim_spec delim r with Some (s, t) => Some (c :: s, t) | None => None end
+  end.
+
+Theorem verbatim_string_value len start delim : delim < 128 -> forall fuel c s c',
+  bytes_ok (rest c) -> verbatim_loop len fuel start delim c = Ok (s, c') ->
+  verbatim_spec delim (lossy (rest c)) = Some (s, lossy (rest c')) /\ bytes_ok (rest c').
+Proof.
+  intros Hd. induction fuel as [|f IH]; intros c s c' B H; [discriminate|]. cbn [verbatim_loop] in H.
+  destruct (eat_byte delim c) as [c1|] eqn:D1.
+  - pose proof (eat_byte_inv _ _ _ D1) as R1. rewrite R1 in B. inversion B as [|? ? _ B1]; subst.
+    rewrite R1, (lossy_ascii delim (rest c1) Hd B1). cbn [verbatim_spec]. rewrite N.eqb_refl.
+    destruct (eat_byte delim c1) as [c2|] eqn:D2.
+    + pose proof (eat_byte_inv _ _ _ D2) as R2. rewrite R2 in B1. inversion B1 as [|? ? _ B2]; subst.
+      rewrite R2, (lossy_ascii delim (rest c2) Hd B2). rewrite N.eqb_refl.
+      destruct (verbatim_loop len f start delim c2) as [[s2 c3]| | |] eqn:L; try discriminate.
+      cbn [obind] in H. inversion H; subst. destruct (IH _ _ _ B2 L) as [-> B3]. split; [reflexivity|exact B3].
+    + inversion H; subst. split; [|exact B1].
+      destruct (eat_byte_none _ _ D2) as [R0|[x [r [R' Hx]]]]; [rewrite R0; reflexivity|].
+      rewrite R' in B1 |- *.
+      destruct (lossy_head_neq x r delim B1 Hd Hx) as [cp [t [-> Hc]]].
+      destruct (N.eqb_spec cp delim); [congruence|reflexivity].
+  - destruct (eat_any_char c) as [[[c1 oc]|]| | |] eqn:EA; try discriminate; cbn [obind] in H.
+    2:{ unfold fail in H. destruct (make_span len start (pos c)); discriminate. }
+    destruct (eat_any_char_inv _ _ _ B EA) as [b0 [r [R [L [B1 [A NA]]]]]].
+    destruct (verbatim_loop len f start delim c1) as [[s2 c3]| | |] eqn:LP; try discriminate.
+    cbn [obind] in H. inversion H; subst. destruct (IH _ _ _ B1 LP) as [E B3]. split; [|exact B3].
+    rewrite L. cbn [verbatim_spec]. rewrite E.
+    assert (Hne : or_replacement oc <> delim).
+    { destruct (eat_byte_none _ _ D1) as [R0|[x [r' [R' Hx]]]]; [rewrite R0 in R; discriminate|].
+      rewrite R in R'. inversion R'; subst x r'.
+      destruct (N.lt_ge_cases b0 128) as [Lt|Ge]; [rewrite (A Lt); exact Hx|specialize (NA Ge); lia]. }
+    destruct (N.eqb_spec (or_replacement oc) delim); [congruence|reflexivity].
+Qed.
+
+(* ---- surrogate pairs ---- *)
+Theorem surrogate_pair_value hi lo c :
+  decode_utf16_pair hi lo = Some c <->
+  (0xD800 <= hi <= 0xDBFF /\ 0xDC00 <= lo <= 0xDFFF /\ c = 0x10000 + (hi - 0xD800) * 1024 + (lo - 0xDC00)).
+Proof.
+  unfold decode_utf16_pair.
+  destruct (in_range 0xD800 0xDBFF hi) eqn:H1; destruct (in_range 0xDC00 0xDFFF lo) eqn:H2; cbn [andb].
+  - apply in_range_iff in H1, H2. rewrite (lor_shiftl_add (hi - 0xD800) (lo - 0xDC00) 10) by (cbn; lia).
+    change (2 ^ 10) with 1024. split.
+    + intros E. assert (E' : c = 0x10000 + ((hi - 0xD800) * 1024 + (lo - 0xDC00))) by congruence.
+      repeat split; lia.
+    + intros [_ [_ ->]]. f_equal. lia.
+  - apply in_range_iff in H1. apply in_range_false_iff in H2. split; [discriminate|lia].
+  - apply in_range_false_iff in H1. split; [discriminate|lia].
+  - apply in_range_false_iff in H1. split; [discriminate|lia].
+Qed.
+
+(* every supplementary-plane scalar value is reached by exactly its UTF-16 pair *)
+Theorem surrogate_pair_onto c : 0x10000 <= c <= 0x10FFFF ->
+  decode_utf16_pair (0xD800 + (c - 0x10000) / 1024) (0xDC00 + (c - 0x10000) mod 1024) = Some c /\
+  is_scalar c = true.
+Proof.
+  intros H. split; [|apply is_scalar_iff; lia].
+  apply surrogate_pair_value.
+  pose proof (N.div_mod (c - 0x10000) 1024 ltac:(lia)) as E.
+  pose proof (N.mod_lt (c - 0x10000) 1024 ltac:(lia)) as L.
+  assert ((c - 0x10000) / 1024 < 1024) by (apply N.div_lt_upper_bound; lia).
+  set (q := (c - 0x10000) / 1024) in *. set (r := (c - 0x10000) mod 1024) in *. lia.
+Qed.
+
+
+(* ---- quoted strings: the grammar on code points (specification only; the
+   correspondence theorem is a stated goal, see Props/C14.v) ---- *)
+Definition hex4 (cps : list N) : option (N * list N) :=
+  match cps with
+  | a :: b :: c :: d :: r =>
+      match hex_from_digit a, hex_from_digit b, hex_from_digit c, hex_from_digit d with
+      | Some x, Some y, Some z, Some w => Some (((x * 16 + y) * 16 + z) * 16 + w, r)
+      | _, _, _, _ => None
+      end
+  | _ => None
+  end.
+
+Definition cons_fst (ch : N) (o : option (list N * list N)) : option (list N * list N) :=
+  match o with Some (s, t) => Some (ch :: s, t) | None => None end.
+
+Fixpoint quoted_spec (fuel : nat) (delim : N) (cps : list N) : option (list N * list N) :=
+  match fuel with
+  | O => None
+  | S f =>
+      match cps with
+      | [] => None
+      | c :: r =>
+          if c =? delim then Some ([], r)
+          else if c =? 92 then
+            match r with
+            | [] => None
+            | e :: r1 =>
+                match assoc_byte e escape_table with
+                | Some ch => cons_fst ch (quoted_spec f delim r1)
+                | None =>
+                    if e =? 117 then
+                      match hex4 r1 with
+                      | None => None
+                      | Some (cu1, r2) =>
+                          if is_surrogate cu1 then
+                            match r2 with
+                            | 92 :: 117 :: r3 =>
+                                match hex4 r3 with
+                                | Some (cu2, r4) =>
+                                    match decode_utf16_pair cu1 cu2 with
+                                    | Some ch => cons_fst ch (quoted_spec f delim r4)
+                                    | None => None
+                                    end
+                                | None => None
+                                end
+                            | _ => None
+                            end
+                          else cons_fst cu1 (quoted_spec f delim r2)
+                      end
+                    else None
+                end
+            end
+          else cons_fst c (quoted_spec f delim r)
+      end
+  end.
